@@ -2,6 +2,7 @@
 //! (a) the case lines for `modelrun` and (b) the implementation's canonical results.
 mod cachem;
 mod codec;
+mod conc;
 mod crash;
 mod f3;
 mod fsm;
@@ -28,6 +29,7 @@ fn main() {
         "migchild" => migr::migchild(&opts),
         "migrate" => migr::run(&opts),
         "cache" => cachem::run(&opts),
+        "conc" => conc::run(&opts),
         "seq" => seq::run(&opts),
         "tracegen" => crash::tracegen(&opts),
         "crash" => crash::run(&opts),
